@@ -177,7 +177,7 @@ def unit_direct_solve(nsub, nonhermitian, timeout_ms=20000):
     def harness(eng):
         i, j = z3.Ints("i j")
         eng.assume(z3.And(i >= 0, i <= nsub, j >= 0, j <= nsub))
-        eng.assume(z3.Not(z3.And(i == nsub, j == nsub)))    # the implicit diagonal block is never the subject of a Sylvester equation
+        both_implicit = z3.And(i == nsub, j == nsub)        # requested by the non-Hermitian algorithm for fully diagonalized problems; nothing is eliminated there
         Y = T("Y")
         P = T("projector")
         y_zero = eng.fresh("Y_is_zero_sentinel", "bool")
@@ -224,11 +224,13 @@ def unit_direct_solve(nsub, nonhermitian, timeout_ms=20000):
         try:
             res = eng.call(Closure(node, env, "solve_sylvester"), [yarg, index], {})
         except PyRaise as pr:
-            eng.oblige("raises-only-NotImplementedError-for-a-left-implicit-solve-without-nonhermitian", z3.And(z3.BoolVal(pr.exc.cls == "NotImplementedError" and not nonhermitian), i == nsub),
+            eng.oblige("raises-only-NotImplementedError-for-a-left-implicit-solve-without-nonhermitian", z3.And(z3.BoolVal(pr.exc.cls == "NotImplementedError" and not nonhermitian), i == nsub, j != nsub),
                        detail=pr.exc.cls)
             return
         if yarg is ZERO:
             return eng.oblige("zero-rhs-gives-zero", z3.BoolVal(res is ZERO and not explicit_calls))
+        if eng.branch(both_implicit):
+            return eng.oblige("implicit-diagonal-block:nothing-to-eliminate-answers-zero", z3.BoolVal(res is ZERO and not explicit_calls), detail=repr(res)[:200])
         if eng.branch(z3.And(i < nsub, j < nsub)):
             ok = isinstance(res, T) and res.head == "explicit" and len(explicit_calls) == 1 and explicit_calls[0][0] is Y and explicit_calls[0][1] is index
             return eng.oblige("explicit-pair-goes-to-the-diagonal-solver-unchanged", z3.BoolVal(ok), detail=repr(res))
